@@ -82,8 +82,18 @@ def safe_run(mod, case):
     try:
         return mod.run_impl(case)
     except Exception as e:  # an exception escaping the implementation is an observation too
-        return {"__exception__": type(e).__name__, "__message__": str(e)[:300],
-                "__trace__": traceback.format_exc()[-1500:]}
+        out = {"__exception__": type(e).__name__, "__message__": str(e)[:300],
+               "__trace__": traceback.format_exc()[-1500:]}
+        # ... unless it was raised by the harness's own code (innermost frame in /verif/harness: typically a private
+        # attribute or method of the library that no longer exists under that name): then the implementation was not
+        # observed at all, which says nothing about the property
+        try:
+            fr = traceback.extract_tb(e.__traceback__)[-1]
+            if os.path.abspath(fr.filename).startswith(os.path.dirname(os.path.abspath(__file__)) + os.sep):
+                out["__harness_fault__"] = f"{os.path.basename(fr.filename)}:{fr.lineno} in {fr.name}"
+        except Exception:
+            pass
+        return out
 
 
 def write_replay(pid, n, payload):
@@ -140,16 +150,21 @@ def run(mod, tier, seed, replay=None):
         ctx.n_corpus = len(cases)
         cases.extend(mod.gen_cases(ctx))
 
-    terms, obs_by_id, nontriv, dfail = [], {}, set(), []
+    terms, obs_by_id, nontriv, dfail, hfail = [], {}, set(), [], []
     seen = set()
     t_impl = time.time()
     for i, case in enumerate(cases):
         obs = safe_run(mod, case)
         obs_by_id[i] = obs
+        if isinstance(obs, dict) and obs.get("__harness_fault__"):
+            hfail.append((i, [f"the harness could not observe the implementation on this case: {obs['__exception__']}: "
+                              f"{obs['__message__']} (raised by the harness itself at {obs['__harness_fault__']})"]))
+            continue
         try:
             msgs = mod.direct_check(case, obs)
         except Exception as e:
-            msgs = [f"direct check crashed: {type(e).__name__}: {e}"]
+            hfail.append((i, [f"direct check crashed: {type(e).__name__}: {e}"]))
+            msgs = []
         if msgs:
             dfail.append((i, msgs))
         try:
@@ -163,7 +178,7 @@ def run(mod, tier, seed, replay=None):
             term = mod.coq_term(case, obs)
         except Exception as e:
             term = None
-            dfail.append((i, [f"cannot encode the observation for the model: {type(e).__name__}: {e}"]))
+            hfail.append((i, [f"cannot encode the observation for the model: {type(e).__name__}: {e}"]))
         if term is not None:
             terms.append((i, term))
     t_impl = time.time() - t_impl
@@ -201,6 +216,11 @@ def run(mod, tier, seed, replay=None):
         o = safe_run(mod, small)
         m2 = mod.direct_check(small, o) or msgs
         report("property-fails-on-implementation", small, o, m2)
+    # cases the harness could not evaluate: the property is no longer shown to hold on them, but no failing input exists
+    for i, msgs in hfail[:2]:
+        report("check-not-evaluable", cases[i], obs_by_id[i],
+               [msgs[0] + f" [{len(hfail)} such case(s)]: no-failing-input-found"],
+               {"obligation": f"harness/{pid.lower()}.py observes the implementation on every generated case"})
     dset = {i for i, _ in dfail}
     # C failures without D failure
     for i in [i for i in cbad if i not in dset][:(1 if dfail else 3)]:
